@@ -355,31 +355,43 @@ def gen_operator_spec(rng, version=None):
     if kind == 'bitmap-blocks':
         return _gen_bitmap_blocks_spec(rng, version, b, nums, strs)
     if kind == 'plain-ops':
-        for _ in range(rng.randint(1, 4)):
+        factor_prefix = b''
+        for gi in range(rng.randint(1, 4)):
+            g = []
             r = rng.random()
             if r < 0.15:
-                ids += [201000 + rng.choice([126, 127, 129, 130, 132]), rng.choice(nums), rng.choice(nums), 201000]
+                g += [201000 + rng.choice([126, 127, 129, 130, 132]), rng.choice(nums), rng.choice(nums), 201000]
             elif r < 0.30:
-                ids += [202000 + rng.choice([126, 127, 129, 130]), rng.choice(nums), 202000]
+                g += [202000 + rng.choice([126, 127, 129, 130]), rng.choice(nums), 202000]
             elif r < 0.45:
-                ids += [207000 + rng.choice([1, 2, 3]), rng.choice(nums), rng.choice(nums), 207000]
+                g += [207000 + rng.choice([1, 2, 3]), rng.choice(nums), rng.choice(nums), 207000]
             elif r < 0.60 and strs:
-                ids += [208000 + rng.randint(1, 12), rng.choice(strs), rng.choice(nums), rng.choice(strs), 208000]
+                g += [208000 + rng.randint(1, 12), rng.choice(strs), rng.choice(nums), rng.choice(strs), 208000]
             elif r < 0.72:
                 e1, e2 = rng.choice(nums), rng.choice(nums)
-                ids += [203000 + rng.randint(6, 16), e1, e2, 203255, e1, rng.choice(nums), e2, 203000]
+                g += [203000 + rng.randint(6, 16), e1, e2, 203255, e1, rng.choice(nums), e2, 203000]
             elif r < 0.84 and 31021 in b:
-                ids += [204000 + rng.randint(1, 8), 31021, rng.choice(nums), rng.choice(els), 204000]
+                g += [204000 + rng.randint(1, 8), 31021, rng.choice(nums), rng.choice(els), 204000]
             elif r < 0.90:
-                ids += [206000 + rng.randint(1, 24), 63000 + rng.randint(200, 250), rng.choice(nums)]
+                g += [206000 + rng.randint(1, 24), 63000 + rng.randint(200, 250), rng.choice(nums)]
             elif r < 0.95:
-                ids += [205000 + rng.randint(1, 8), rng.choice(nums)]
+                g += [205000 + rng.randint(1, 8), rng.choice(nums)]
             else:
-                ids += [221000 + 3, rng.choice([e for e in nums if 1 <= e // 1000 <= 9] or nums),
-                        rng.choice(nums), rng.choice(nums)]
+                g += [221000 + 3, rng.choice([e for e in nums if 1 <= e // 1000 <= 9] or nums),
+                      rng.choice(nums), rng.choice(nums)]
+            # the operator is opened and closed inside one replication scope: wrap the whole group.
+            # A delayed replication only as the very first thing, where its factor sits at bit 0.
+            w = rng.random()
+            if gi == 0 and w < 0.3 and r < 0.84:
+                n = rng.choice([0, 0, 1, 2, 3])
+                g = [100000 + len(g) * 1000, 31001] + g
+                factor_prefix = bytes([n])
+            elif w < 0.5 and r < 0.84:
+                g = [100000 + len(g) * 1000 + rng.randint(1, 3)] + g
+            ids += g
             if rng.random() < 0.5:
                 ids.append(rng.choice(els))
-        data = bytes(rng.randrange(256) for _ in range(24 + 8 * len(ids)))
+        data = factor_prefix + bytes(rng.randrange(256) for _ in range(64 + 24 * len(ids)))
     else:
         k = rng.randint(1, 5)
         prefix = [rng.choice(nums + strs[:8] if rng.random() < 0.5 else nums) for _ in range(k)]
